@@ -37,6 +37,7 @@ ROOT = os.path.dirname(os.path.dirname(os.path.abspath(__file__)))
 LEAN_DIR = os.path.join(ROOT, "lean")
 WORK = os.path.join(ROOT, ".work")
 REPO = os.environ.get("FAV_REPO", "/repo")
+EXPERIMENT = os.path.realpath(REPO) != "/repo"
 PY = "/venv/bin/python"
 ALLOWED_AXIOMS = {"propext", "Classical.choice", "Quot.sound"}
 FORBIDDEN = re.compile(r"\b(sorry|admit|native_decide|bv_decide|implemented_by)\b|^\s*axiom\s|\bunsafe\s|maxHeartbeats\s+0\b")
@@ -301,8 +302,12 @@ class Ctx:
         built = [m for m in modules if m not in failed] if not ok else list(modules)
         # if a dependency failed lake reports dependents as failed too; audit what exists
         thms = {}
-        if ok:
-            thms = self.lean.audit(built)
+        if ok or built:
+            try:
+                thms = self.lean.audit(built)
+            except Exception:
+                if ok:
+                    raise
         for t in expected_theorems:
             full = t if "." in t and t.startswith("FAVerif") else f"FAVerif.Props.{self.prop}.{t}"
             if full in thms:
@@ -385,6 +390,33 @@ def write_evidence(ctx, violations_count):
         f.write("\n")
 
 
+GEN_DIR = os.path.join(ROOT, "lean", "FAVerif", "Generated")
+
+
+def _snapshot_generated():
+    """Experiments (FAV_REPO != /repo) overwrite the regenerated Lean files with those of the changed tree;
+    put back what was there so that the next run on /repo does not start from a foreign model."""
+    snap = {}
+    for fn in os.listdir(GEN_DIR):
+        if fn.endswith(".lean"):
+            with open(os.path.join(GEN_DIR, fn)) as f:
+                snap[fn] = f.read()
+    return snap
+
+
+def _restore_generated(snap):
+    for fn, txt in snap.items():
+        path = os.path.join(GEN_DIR, fn)
+        try:
+            with open(path) as f:
+                cur = f.read()
+        except FileNotFoundError:
+            cur = None
+        if cur != txt:
+            with open(path, "w") as f:
+                f.write(txt)
+
+
 def main(argv=None):
     import argparse
 
@@ -411,8 +443,13 @@ def main(argv=None):
         obj = json.load(open(a.replay if os.path.isabs(a.replay) else os.path.join(ROOT, a.replay)))
         rc = mod.replay(ctx, obj)
         return rc
+    snap = _snapshot_generated() if EXPERIMENT else None
     try:
-        mod.run(ctx)
+        try:
+            mod.run(ctx)
+        finally:
+            if snap is not None:
+                _restore_generated(snap)
     except Infra as e:
         print(f"INFRA-ERROR property={prop}: {e}", flush=True)
         try:
